@@ -1,7 +1,7 @@
 SPEC_PART = dict(
     props_file="C12_tdigest",
     legs=[dict(family="tdigest", focus="layout", oracles=["codec_ok", "foreign_ok"], profiles=["debug"],
-               mask=[0, 1, 7, 8, 9, 10, 14, 15, 17, 19, 21], n_quick=60, n_thorough=600)],
+               mask=[0, 1, 7, 8, 9, 10, 14, 15, 17, 19, 21], n_quick=60, n_thorough=300)],
     trusted=["tdigest: layout = my reading of the DataSketches t-digest format and of the reference implementation's asBytes / "
              "asSmallBytes (DESIGN.md Appendix A); the two reference files under datasketches/tests/test_data are golden samples for the "
              "big-endian decoders (decoded by the layout decoder and compared with what the crate reads from them)"],
